@@ -51,6 +51,15 @@ pub fn vx_into_iter_find<K, V, F: Fn(&(K, V)) -> bool>(m: std::collections::Hash
         None => forall|k: K| #[trigger] m@.contains_key(k) ==> call_ensures(f, (&(k, m@[k]),), false),
     }
 { m.into_iter().find(f) }
+// R20: Vec::into_iter().filter(f).collect::<Vec<_>>() (trusted model of std): every kept element is an element of the input for
+// which the predicate returned true, every input element was either kept or the predicate returned false for it
+#[verifier::external_body]
+pub fn vx_into_iter_filter_collect<T, F: Fn(&T) -> bool>(v: Vec<T>, f: F) -> (r: Vec<T>)
+    requires forall|i: int| 0 <= i < v@.len() ==> call_requires(f, (&#[trigger] v@[i],)),
+    ensures r@.len() <= v@.len(),
+        forall|j: int| 0 <= j < r@.len() ==> exists|i: int| 0 <= i < v@.len() && #[trigger] r@[j] == #[trigger] v@[i] && call_ensures(f, (&v@[i],), true),
+        forall|i: int| 0 <= i < v@.len() ==> call_ensures(f, (&#[trigger] v@[i],), false) || exists|j: int| 0 <= j < r@.len() && #[trigger] r@[j] == v@[i],
+{ v.into_iter().filter(f).collect() }
 // `a == b` on byte slices (vstd's PartialEq specification for slices does not reduce to view equality)
 #[verifier::external_body] pub fn vx_slice_eq(a: &[u8], b: &[u8]) -> (r: bool) ensures r == (a@ == b@) { a == b }
 pub assume_specification<T: PartialEq> [<[T]>::contains] (s: &[T], x: &T) -> (r: bool)
@@ -197,10 +206,16 @@ pub mod passkey_types {
     }
     pub mod webauthn {
         use super::*;
-        pub struct PublicKeyCredentialDescriptor { pub id: Bytes }
-        pub struct PublicKeyCredentialUserEntity { pub id: Bytes, pub display_name: String, pub name: String }
-        pub struct PublicKeyCredentialParameters { pub alg: iana::Algorithm }
-        #[derive(Clone, Copy)] pub struct AuthenticatorTransport { pub opaque: u8 }
+        // real items of passkey-types/src/webauthn/{common,attestation}.rs (serde / typeshare attributes dropped by R2)
+        //@ source wcommon passkey-types/src/webauthn/common.rs
+        //@ source wattest passkey-types/src/webauthn/attestation.rs
+        //@ extract wcommon enum PublicKeyCredentialType
+        //@   derive PartialEq Eq
+        //@ extract wcommon enum AuthenticatorTransport
+        //@ extract wcommon struct PublicKeyCredentialDescriptor
+        //@ extract wattest struct PublicKeyCredentialUserEntity
+        //@   noderive
+        //@ extract wattest struct PublicKeyCredentialParameters
     }
     pub mod ctap2 {
         use super::*;
@@ -289,15 +304,14 @@ pub mod passkey_types {
     }
     impl vstd::std_specs::convert::FromSpecImpl<Passkey> for webauthn::PublicKeyCredentialDescriptor {
         open spec fn obeys_from_spec() -> bool { true }
-        open spec fn from_spec(p: Passkey) -> webauthn::PublicKeyCredentialDescriptor { webauthn::PublicKeyCredentialDescriptor { id: p.credential_id } }
+        open spec fn from_spec(p: Passkey) -> webauthn::PublicKeyCredentialDescriptor { webauthn::PublicKeyCredentialDescriptor { ty: webauthn::PublicKeyCredentialType::PublicKey, id: p.credential_id, transports: None } }
     }
-    // model of passkey.rs `impl From<Passkey> for webauthn::PublicKeyCredentialDescriptor` (the descriptor model has only `id`)
-    impl From<Passkey> for webauthn::PublicKeyCredentialDescriptor { fn from(value: Passkey) -> Self { Self { id: value.credential_id } } }
+    //@ extract pk impl From<Passkey> for webauthn::PublicKeyCredentialDescriptor
     impl<'a> vstd::std_specs::convert::FromSpecImpl<&'a Passkey> for webauthn::PublicKeyCredentialDescriptor {
         open spec fn obeys_from_spec() -> bool { true }
-        open spec fn from_spec(p: &'a Passkey) -> webauthn::PublicKeyCredentialDescriptor { webauthn::PublicKeyCredentialDescriptor { id: p.credential_id } }
+        open spec fn from_spec(p: &'a Passkey) -> webauthn::PublicKeyCredentialDescriptor { webauthn::PublicKeyCredentialDescriptor { ty: webauthn::PublicKeyCredentialType::PublicKey, id: p.credential_id, transports: None } }
     }
-    impl From<&Passkey> for webauthn::PublicKeyCredentialDescriptor { fn from(value: &Passkey) -> Self { Self { id: value.credential_id.clone() } } }
+    //@ extract pk impl From<&Passkey> for webauthn::PublicKeyCredentialDescriptor
 }
 pub use passkey_types::Passkey;
 pub use passkey_types::webauthn::PublicKeyCredentialDescriptor;
@@ -590,10 +604,13 @@ pub mod authenticator {
             },
             Passkey,
         };
+        #[allow(unused_imports)] use crate::passkey_types::webauthn::*;
         use crate::{Authenticator, CoseKeyPair, CredentialStore, UserValidationMethod};
         //@ source mc passkey-authenticator/src/authenticator/make_credential.rs
         //@ extract mc impl Authenticator
         //@   only make_credential
+        //@   rule R19
+        //@   rule R20
         //@   rule R6
         //@   rule R14 check_user
         //@   rule R16
@@ -608,6 +625,8 @@ pub mod authenticator {
             },
             webauthn::PublicKeyCredentialUserEntity,
         };
+        // glob imports: a changed file may import further items of the mirrored modules
+        #[allow(unused_imports)] use crate::passkey_types::webauthn::*;
         use crate::{private_key_from_cose_key, Authenticator, CredentialStore, UserValidationMethod};
         // the lookup arguments the ceremony must use: the allow list when present and non-empty, else none
         pub open spec fn allow_ids(input: Request) -> Option<Seq<PublicKeyCredentialDescriptor>> {
@@ -656,6 +675,8 @@ pub mod authenticator {
         //@ source ga passkey-authenticator/src/authenticator/get_assertion.rs
         //@ extract ga impl Authenticator
         //@   only get_assertion
+        //@   rule R19
+        //@   rule R20
         //@   rule R6
         //@   rule R12b
         //@   rule R14 check_user
